@@ -441,16 +441,22 @@ def main():
     for J in range(2, min(maxJ, 5) + 1):
         ids = IDS[:J]
         reduce_sym = (J >= 4) if not thorough else (J >= 5)
-        nmax = maxN if J < 5 else 3
+        nmax = maxN if J <= 3 else 3
         for nests in cnl_structures(ids, nmax, reduce_sym):
             for with_av in (False, True):
-                c2 = dict(cfg, full_av=(J <= 3 or thorough and J == 4), pts=1 if J >= 4 else cfg['pts'])
+                c2 = dict(cfg, full_av=(J <= 3), pts=1 if J >= 4 else cfg['pts'], engine_pats=2)
                 tasks.append(('cnl', (ids, nests, with_av, c2, prop)))
     tasks = [(fam, k, seed, args) for k, (fam, args) in enumerate(tasks)]
+    import os
+    if os.environ.get('C05_DRY'):
+        from collections import Counter
+        print(json.dumps({'tasks': Counter((t[0], len(t[3][0]) if t[0] != 'ordered' else t[3][0]) for t in tasks).most_common()}, default=str))
+        return 0
     if jobs > 1:
         import multiprocessing as mp
-        with mp.get_context('fork').Pool(jobs) as pool:
-            dumps = pool.map(run_task, tasks, chunksize=4)
+        # the compiled engine leaks a few MB per evaluation: workers are recycled
+        with mp.get_context('fork').Pool(jobs, maxtasksperchild=12) as pool:
+            dumps = pool.map(run_task, tasks, chunksize=2)
     else:
         dumps = [run_task(t) for t in tasks]
     failures = []
